@@ -74,6 +74,27 @@ theorem drift_same_count_never_early (d : Nat → Nat) (i T : Nat) :
     loopDrift (fun _ => 0) T i T 0 0 0 = offsets i T :=
   ⟨loopDrift_length d T i T 0 0 0, loopDrift_ge d T i T 0 0 0 (Nat.le_refl 0), loopDrift_zero T i T 0 0⟩
 
+/-- **regenerated structural fact** (round 6, `harness/gen_denm.py analyse_sleep`): the repetition loop of
+    `trigger_denm_messages` contains a `sleep(..)` call, and every one is a statement of its own directly in the body of
+    the `while` loop (not inside the `try` that protects a repetition, not in a branch) whose only argument is the
+    constant interval `<request>.denm_interval / 1000` - the wait after a repetition does not depend on how long the
+    repetition took, which is what `loop` / `loopDrift` model.  Seeded change C17-m11 ('drift compensation':
+    `sleep(i/1000 - (monotonic() - repetition_start))`, no clamp at 0, outside the try) makes this `decide` fail. -/
+theorem repetition_sleep_tied :
+    Generated.Denm.sleepArgs ≠ [] ∧ ∀ c ∈ Generated.Denm.sleepArgs, c = 0 := by decide
+
+/-- **the repetition count does not depend on how long the hand-overs take**: whatever time `d k ≥ 0` repetition `k`
+    spends building, encoding and handing over its DENM (a blocked link layer, longer than the interval or not), the
+    loop hands over exactly ⌈T/i⌉ DENMs, DENM `k` not before `k·i`.  Driven by the 'slow hand-over' scenarios of
+    harness/props/c17.py (the transport stub blocks for a virtual duration; the real emission times are compared with
+    the model's offsets shifted by the time the earlier hand-overs took). -/
+theorem count_independent_of_handover_duration (d : Nat → Nat) (i T : Nat) (hi : 0 < i) :
+    (loopDrift d T i T 0 0 0).length = ceilDiv T i ∧
+    (∀ p ∈ List.zip (offsets i T) (loopDrift d T i T 0 0 0), p.1 ≤ p.2) := by
+  refine ⟨?_, (drift_same_count_never_early d i T).2.1⟩
+  rw [(drift_same_count_never_early d i T).1, offsets_eq i T hi]
+  simp
+
 /-- **stable identity**: all DENMs of one event carry the same action id and the station's id
     (holds for every interval, also the degenerate ones). -/
 theorem same_identity_within_event (clk : Nat → Nat) (tm : TM) (start : Nat) (r : Request) :
